@@ -41,7 +41,7 @@ var c12Uint64s = []uint64{0, 1, 5, 255, 65535, 1<<32 - 1, 1 << 32, 1<<53 - 1, 1 
 var c12Floats = []float64{0, math.Copysign(0, -1), 0.5, 5, 5.5, -5.5, 0.1, 1e-9, 1e308, 5e-324, math.NaN(), math.Inf(1), math.Inf(-1),
 	float64(c12P53), float64(c12P53) + 2, float64(c12P53) - 1, -float64(c12P53), 9.223372036854775808e18, 1.8446744073709551616e19, 16777217, 1, -1, 123456789.125}
 var c12Float32s = []float32{0, 0.1, 5, 5.5, 16777216, float32(math.NaN()), float32(math.Inf(1)), -2.5, 3.4e38}
-var c12Strs = []string{"", "a", "abc", "abd", "ab", "5", "b", "B", "é", "a b", "a\nb", "a\\b", "a\\nb", "a\rb", "\xff", "a\xffb", "�", "a�b", "中文", "a && b", "a || b", "("}
+var c12Strs = []string{"", " a", "a ", "a", "abc", "abd", "ab", "5", "b", "B", "é", "a b", "a\nb", "a\\b", "a\\nb", "a\rb", "\xff", "a\xffb", "�", "a�b", "中文", "a && b", "a || b", "("}
 var c12IntWidths = []string{"i", "i8", "i16", "i32", "i64", "u", "u8", "u16", "u32", "u64"}
 
 func c12IntTok(w string, v int64, u uint64) string {
@@ -245,7 +245,7 @@ func c12ExprString(raw string) (string, bool) {
 	return sb.String(), true
 }
 
-var c12RawStrs = []string{"", "a", "abc", "abd", "ab", "5", "b", "B", "é", "a b", "a\\nb", "a\\\\b", "a\\tb", "a\rb", "\xff", "a\xffb", "�", "中文",
+var c12RawStrs = []string{"", " a", "a ", " ", "a", "abc", "abd", "ab", "5", "b", "B", "é", "a b", "a\\nb", "a\\\\b", "a\\tb", "a\rb", "\xff", "a\xffb", "�", "中文",
 	"a && b", "a || b", "(", ")", "&&", "a\"b", "\xe4\xb8", "\xed\xa0\x80", "\xf0\x9f\x98\x80", "\xc0\xaf", "a\r\nb"}
 
 // valTok → a literal text equal or adjacent to the value, when one exists
